@@ -4,7 +4,7 @@ From KT Require Import Gen.Generated Gen.Alphabet Gen.FactsBase Gen.FactLetters 
 From KT Require Import Proof.Sched Proof.Batch Proof.PipelineProof.
 From Coq Require Import String.
 From KT Require Model.Show.
-From KT Require Import Model.Reader Proof.Fasta Proof.Fastq Proof.ReaderProof Proof.ContainerProof.
+From KT Require Import Model.Reader Proof.Fasta Proof.Fastq Proof.ReaderProof Proof.ContainerProof Proof.MappedBytes Proof.MappedCmd.
 Import ListNotations.
 Open Scope N_scope.
 
@@ -60,6 +60,31 @@ Proof.
            Hfa Hca Hwa Hba Hla Hpa Hfq Hcq Hwq Hbq Hlq Hpq Hs (wf_decode _ Hw)).
 Qed.
 
+(* both writer strategies from the same file bytes, end to end (Proof/MappedCmd.v): reader model, the statistics pass
+   that sizes the mapping, set_len on whatever the output path held, then the header and the rows copied to their
+   offsets in ANY order (`order`: any re-listing of the same writes) - the bytes are those the batch writer
+   produces for the same file with any memory limit.  With the example below: the mapped command really runs. *)
+Theorem C05_mapped_and_batch_writer_agree_from_file_bytes :
+  forall path members k hdr delim order old mem f recs,
+  (1 <= k <= 31)%nat -> (forall l w, In w (order l) <-> In w l) ->
+  format_of path = Some f -> parse f (file_content members) = Fasta.Ok recs ->
+  wf_bytes (map snd recs) -> Forall (fun s => (Z.of_nat (S (List.length s)) < 2 ^ 53)%Z) (map snd recs) ->
+  oligo_mmap_cmd path members k hdr delim order old = oligo_cmd path members k true hdr delim mem.
+Proof.
+  intros path members k hdr delim order old mem f recs Hk Ho Hf Hp Hw Hl.
+  exact (mapped_cmd_is_batch_cmd path members k hdr delim order old mem f recs Hk Ho Hf Hp (wf_decode _ Hw) Hl).
+Qed.
+
+Example C05_mapped_cmd_example :
+  oligo_mmap_cmd (Show.str "a.fa"%string) [Show.str ">r0 x
+ACG
+TAC
+>r1
+GG
+"%string] 2 true [44] (@rev _) (Show.str "what an earlier, longer run left in the output file .................................................................................................................................................................................................................."%string)
+  = Some (s_ofile 2 true true [44] [Show.str "ACGTAC"%string; Show.str "GG"%string]).
+Proof. vm_compute. reflexivity. Qed.
+
 Example C05_container_example :
   oligo_cmd (Show.str "a.fa"%string) [Show.str ">r0 x
 ACG
@@ -95,3 +120,4 @@ Print Assumptions C05_mapped_writer_every_interleaving.
 Print Assumptions C05_writers_agree.
 Print Assumptions C05_header_adds_exactly_one_line.
 Print Assumptions C05_container_independent.
+Print Assumptions C05_mapped_and_batch_writer_agree_from_file_bytes.
